@@ -7,6 +7,7 @@
   Their composition over a whole stream is evaluated by the oracle on every generated history
   (stream-neutral) and end to end (every ref resolves to the same object id).
 -/
+import Frrs.Extracted
 import Frrs.Props.C15
 import Frrs.Props.C02
 import Frrs.Props.C04
@@ -64,5 +65,9 @@ example : (runBytes { prune := { pruneEmpty := .never, pruneDegenerate := .never
     b!"feature done\nblob\nmark :1\noriginal-oid aa\ndata 2\nhi\nreset refs/heads/main\ncommit refs/heads/main\nmark :2\noriginal-oid bb\nauthor A <a@e> 1 +0000\ncommitter A <a@e> 1 +0000\ndata 2\nm\nM 100644 :1 \"sp ace\"\n\ncommit refs/heads/main\nmark :3\noriginal-oid cc\nauthor A <a@e> 2 +0000\ncommitter A <a@e> 2 +0000\ndata 6\nempty\nfrom :2\n\nreset refs/tags/lw\nfrom :3\n\ndone\n").out
   = b!"feature done\nblob\nmark :1\ndata 2\nhireset refs/heads/main\ncommit refs/heads/main\nmark :2\noriginal-oid bb\nauthor A <a@e> 1 +0000\ncommitter A <a@e> 1 +0000\ndata 2\nm\nM 100644 :1 \"sp ace\"\n\ncommit refs/heads/main\nmark :3\noriginal-oid cc\nauthor A <a@e> 2 +0000\ncommitter A <a@e> 2 +0000\ndata 6\nempty\nfrom :2\n\nreset refs/tags/lw\nfrom :3\ndone\n" := by
   decide +kernel
+
+/-- the exporter and importer are run with the audited, lossless flag set; none of the flags the round trip depends on is
+    conditional (extracted from pipes.rs on every run) -/
+theorem pipe_flags_audited : Extracted.pipeArgs = Pipe.auditedPipeArgs := by decide +kernel
 
 end Frrs.C08
